@@ -24,7 +24,8 @@ ID = "C01"
 RULE = ("programs from the type-spec grammar of U (depth <= 4 quick / 6 thorough, 2 modules) x 8 valid values; "
         "non-trivial = depth(T) >= 2 or the value falls in a boundary class (empty/large container, min/max "
         "temporal, look-alike string, str-mixin enum member, non-str mapping key, non-UTC offset, >= 7 day or "
-        "negative duration); distinct by (spec, value source)")
+        "negative duration); two of the 8 values per program are also taken through fail - repair in place - retry (harness/retry.py) in "
+        "both directions; distinct by (spec, value source)")
 ASSUMPTIONS = ["naive temporals, NaN/inf and composite mapping keys are outside U (DESIGN.md section 3)",
                "datetime/time `fold` is not required to survive",
                "for T containing a wider Union only the fixpoint law is demanded"]
